@@ -11,10 +11,25 @@ from .playing import BASE, Playing, Tok
 
 
 def run(chk):
+    """The shape-independent decider first (complete play-outs of the folded engines against the rules), then the path-summary rules for
+    all states; a shape the latter cannot bind is recorded, not an error, as long as the play-outs decide the behaviour."""
+    from . import playout
+    playout.run(chk, 'C06')
+    try:
+        structural(chk)
+    except AnalysisError as e:
+        if chk.findings:
+            raise
+        chk.explanation = ''
+        chk.note(f'path-summary rules not evaluated ({e.rule} at {e.anchor}: {e.why[:200]}); the verdict rests on the complete play-outs and the folds evaluated before')
+    chk.explanation = 'Complete play-outs: the real PlayingPhaseWithHands and four ObservedPlayingPhase replicas are folded in lock-step through all 52 cards of a family of deals x trump x declarer x card-choice strategy (incl. revokes, which the engines allow) and compared with an oracle of the rules after every card (sa/rules/playout.py): the advertised playable sets are the follow-suit sets at every turn (R4).  ' + (chk.explanation or 'The path-summary rules could not bind this shape of the engine and were not evaluated.')
+
+
+def structural(chk):
     P = Playing(chk, 'C06')
     repo, f = chk.repo, P.f
     chk.explanation = (
-        'available_cards touches cards only through suit identity (use analysis), so its result depends only on which cards '
+        'available_cards touches cards only through suit identity (decided by folding it on cards whose rank is an opaque value: any look at a rank is an analysis error), so its result depends only on which cards '
         'of the hand share the suit led: it is folded for every non-empty hand over a pool of 5 cards (2 suits + 1 odd card; 31 '
         'hands) x lead none / each pool suit / an absent suit and compared with the follow-suit rule. current_available_cards must '
         'pass card 0 of the current trick (none iff the trick is empty); the *_in_hand wrappers must pass the right hand; '
@@ -22,22 +37,6 @@ def run(chk):
         'hand the example player the very sets its observer mutates.')
     w, q = loc(repo, BASE, 'available_cards', 'C06.R1')
     _, ac = repo.method(BASE, 'available_cards', 'C06.R1')
-    bad = None
-    for n in ast.walk(ac):
-        if isinstance(n, ast.Attribute) and n.attr in ('rank', 'suit'):
-            par = parent(n)
-            if isinstance(par, ast.Compare) or (isinstance(par, ast.Assign) and par.value is n):
-                continue
-            bad = ast.unparse(par)
-        if isinstance(n, ast.Attribute) and n.attr == 'rank':
-            bad = 'rank is consulted'
-    # a card handed to any function other than a container operation (int(card), hash, ...) leaves the suit-identity argument
-    fc = ac.args.args[1].arg if len(ac.args.args) > 1 else None
-    card_names = {fc} | {g.target.id for n in ast.walk(ac) if isinstance(n, (ast.SetComp, ast.ListComp, ast.GeneratorExp)) for g in n.generators
-                         if isinstance(g.target, ast.Name)}
-    for n in ast.walk(ac):
-        if isinstance(n, ast.Call) and any(isinstance(a, ast.Name) and a.id in card_names for a in n.args):
-            bad = bad or f'`{ast.unparse(n)}` applies a function to a card'
     S, H, D, C = (f.member('Suit', x) for x in 'SHDC')
     pool = [f.make('Card', rank=14, suit=S), f.make('Card', rank=3, suit=S), f.make('Card', rank=13, suit=H),
             f.make('Card', rank=2, suit=H), f.make('Card', rank=9, suit=D), f.make('Card', rank=2, suit=C)]
@@ -60,8 +59,33 @@ def run(chk):
     chk.require(first_bad is None, 'C06.R1', w, q, 'available_cards on every hand pattern x lead',
                 f'available_cards equals the follow-suit rule on all {n} (hand pattern, lead) classes',
                 f'hand {first_bad[0]}, lead {first_bad[1]}: available_cards = {first_bad[2]}, the rule gives {first_bad[3]}' if first_bad else '')
-    if bad and first_bad is None:
-        raise AnalysisError('C06.R1', q, f'cards are used beyond suit identity ({bad}): the hand-pattern classes do not cover every hand')
+    # That hand patterns over a small pool are exhaustive is not argued from the syntax: the same enumeration is folded once more on cards
+    # whose RANK is an opaque value (fold.Opaque) - any look at a rank (comparison, int(card), hash, formatting) leaves the abstraction.
+    if first_bad is None:
+        from ..fold import Opaque
+        suits6 = [c.fields['suit'] for c in pool]
+        opool = [DV(pool[0].cls, {'rank': Opaque(f'rank of card {i}'), 'suit': su}) for i, su in enumerate(suits6)]
+        oleads = [None] + [DV(pool[0].cls, {'rank': Opaque(f'rank of the lead in {su.name}'), 'suit': su}) for su in (C, D, H, S)]
+        n_o = 0
+        for k in range(1, len(opool) + 1):
+            for hand in itertools.combinations(opool, k):
+                for lead in oleads:
+                    n_o += 1
+                    same = [c for c in hand if lead is not None and c.fields['suit'] == lead.fields['suit']]
+                    want = list(hand) if lead is None or not same else same
+                    try:
+                        f.steps = 0
+                        got = f.call_class(BASE, 'available_cards', set(hand), lead)
+                    except Unsupported as e:
+                        raise AnalysisError('C06.R1', q, f'available_cards looks at more than the suits of the cards ({e}): the hand-pattern classes do not cover every hand')
+                    except FoldRaise as r:
+                        raise AnalysisError('C06.R1', q, f'available_cards raises {r.kind} on cards of unknown rank')
+                    if sorted(map(id, got)) != sorted(map(id, want)):
+                        chk.fail('C06.R1', w, q, 'available_cards on cards of unknown rank',
+                                 f'hand of suits {[c.fields["suit"].name for c in hand]}, lead {lead.fields["suit"].name if lead else None}: available_cards returns '
+                                 f'{len(list(got))} card(s), the follow-suit rule gives {len(want)}')
+        chk.evals(n_o)
+        chk.ok('C06.R1', w, f'the {n_o} (hand pattern, lead suit) classes are folded again on cards of OPAQUE rank: available_cards looks at suits only, so the classes are exhaustive')
 
     # ---- R2: state-dependent variant and wrappers ------------------------------------------------------------------
     w, q = loc(repo, BASE, 'current_available_cards', 'C06.R2')
